@@ -63,8 +63,17 @@ TriWhy(e) ==
 (* a user-defined colour type with its transparency in a field of its own (derive with #[palette(alpha)]; the harness'
    UserRgb, wired in through Rgb only): Alpha<A> -> UserRgb -> Alpha<A> must carry the transparency over bit for bit in both
    directions, and the colour must be the one the bare conversions through Srgb give *)
+(* WithAlpha on the colour e.in = <<components.., alpha>>: with_alpha attaches it, a second with_alpha replaces it (by 1/8), split and
+   without_alpha give colour and alpha back, opaque has alpha 1 and transparent alpha 0 - the colour never changes *)
+WaOk(e) == LET n == Len(e["in"])  c == SubSeq(e["in"], 1, n - 1)
+               Col(x) == SubSeq(x, 1, n - 1)
+           IN /\ e.wa["with"] = e["in"] /\ e.wa.split = e["in"] /\ e.wa.without = e["in"]
+              /\ Col(e.wa.replaced) = c /\ e.wa.replaced[n] = <<1, -1, 1024>>
+              /\ Col(e.wa.opaque) = c /\ e.wa.opaque[n] = <<1, 0, 1>>
+              /\ Col(e.wa.transparent) = c /\ e.wa.transparent[n] = <<0, 0>>
 UserWhy(e) ==
   IF e.panic = 1 THEN "panic"
+  ELSE IF "wa" \in DOMAIN e /\ ~WaOk(e) THEN "with-alpha-helper-changes-colour-or-alpha"
   ELSE IF e.u_alpha # e.alpha_in \/ e.back_alpha # e.alpha_in THEN "alpha-value-changed"
   ELSE IF e.u # e.srgb \/ e.uo # e.srgb THEN "alpha-changes-colour"
   ELSE IF e.back # e.back_plain \/ e.back_opaque # e.back_plain THEN "alpha-changes-colour"
